@@ -27,6 +27,14 @@ def plan(tier, seed):
                              "params": dict(spec=spec, variant=variant, n=n, B=B, pos=pos)})
         if spec not in ("dpp", "mdpp"):
             pairs.append((spec, variant, nq + 2))
+    # scheduling: two padded instances with different numbers of operations in one batch, every mask-admitted action
+    # sequence of both rows; row 0 is also driven alone with the same actions (paths split over 16 worker shards)
+    kinds = ["jssp"] if tier == "quick" else ["jssp", "fjsp"]
+    for kind in kinds:
+        for mno in ([True] if tier == "quick" else [True, False]):
+            for i in range(16):
+                jobs.append({"id": f"C04:sched {kind} 2 rows (2,1 ops) mask_no_ops={mno} shard {i}/16", "module": "vf.sched", "func": "fjsp_job",
+                             "params": dict(kind=kind, NJ=2, NOPS=2, NM=2, mask_no_ops=mno, B=2, unequal=True, shard=[i, 16], compare_solo=True)})
     return {
         "jobs": jobs, "torch_requests": CF.rollout_requests(pairs, seed, B=3), "level": "model_checking",
         "bounds": "per job: n nodes, B rows (row under test at every position), T = step bound; all instance data and all actions of all rows symbolic; solo run = B=1 with the same actions",
@@ -37,6 +45,10 @@ def plan(tier, seed):
 def confirm(rp, resp):
     if rp.get("mode") == "witness":
         return False, "witness"
+    if rp.get("module") == "sched_side":
+        from . import C07
+
+        return C07.confirm(rp, resp)
     if "error" in resp:
         return False, "torch side failed: " + resp["error"]
     b, s, pos = resp["batched"], resp["solo"], rp["pos"]
